@@ -296,6 +296,8 @@ func extractRecords(repo, root string) error {
 	}
 	fmt.Fprintf(&out, "/-- message_reader.go readMessageV2: the `attributes & <mask>` tests (timestamp type: LogAppendTime) -/\ndef legacyStampMasksV2 : List Nat := %s\n",
 		natList(without(attrMasks(f, funcBody(f, "messageSetReader", "readMessageV2"), env), codecMask)))
+	fmt.Fprintf(&out, "/-- message_reader.go readHeader: the `attributes & <mask>` tests other than the codec's (control batches are passed over since fix 314fa1c) -/\ndef legacyHeaderMasks : List Nat := %s\n",
+		natList(without(attrMasks(f, funcBody(f, "messageSetReader", "readHeader"), env), codecMask)))
 	fmt.Fprintf(&out, "/-- message_reader.go readMessageV1: the `attributes & <mask>` tests other than the codec's -/\ndef legacyStampMasksV1 : List Nat := %s\n",
 		natList(without(attrMasks(f, funcBody(f, "messageSetReader", "readMessageV1"), env), codecMask)))
 
